@@ -242,11 +242,18 @@ def write_replay(prop, engine_name, seed, trace, violation, tag):
     return path
 
 
+_minimise_deadline = [None]
+
+
 def minimise(engine, prop, trace, violation):
     """Shrink trace['ops'] while the same (property, sig) still fires."""
     target = (violation["property"], violation["sig"])
+    if _minimise_deadline[0] is None:
+        _minimise_deadline[0] = time.time() + getattr(engine, "MINIMISE_BUDGET_S", 120)
 
     def fires(ops):
+        if time.time() > _minimise_deadline[0]:
+            return False
         t = dict(trace)
         t["ops"] = ops
         try:
@@ -260,9 +267,11 @@ def minimise(engine, prop, trace, violation):
     step = violation.get("step")
     if isinstance(step, int) and 0 <= step < len(ops) and fires(ops[:step + 1]):
         ops = ops[:step + 1]
+    if time.time() > _minimise_deadline[0]:
+        return trace, False
     if not fires(ops):
         return trace, False
-    ops = ddmin(ops, fires)
+    ops = ddmin(ops, fires, max_tests=getattr(engine, "DDMIN_MAX_TESTS", 400))
     if hasattr(engine, "simplify_ops"):
         ops = engine.simplify_ops(ops, fires)
     t = dict(trace)
@@ -345,7 +354,7 @@ def run_check(prop, engine_name, tier, nruns, extra_evidence=None):
         if trace is not None:
             mtrace, ok = minimise(engine, prop, trace, v)
             path = write_replay(prop, engine_name, r["seed"], mtrace, v,
-                                "minimised" if ok else "unminimised (did not reproduce in-process)")
+                                "minimised" if ok else "unminimised (minimisation budget used up or not reproducible in-process)")
         new_violations.append((sig, len(lst), path, v))
         print(f"VIOLATION property={prop} replay={path}")
         print(f"  sig={sig} runs={len(lst)} first: run {r['i']} seed {r['seed']} step {v['step']}: {v['detail']}")
@@ -359,6 +368,8 @@ def run_check(prop, engine_name, tier, nruns, extra_evidence=None):
                         known_hit, new_violations, other, harness)
     if extra_evidence:
         ev["coverage"].update(extra_evidence)
+    if hasattr(engine, "extra_coverage"):
+        ev["coverage"].update(engine.extra_coverage(results, prop))
     os.makedirs(EVIDENCE_DIR, exist_ok=True)
     with open(os.path.join(EVIDENCE_DIR, f"{prop}.json"), "w", encoding="utf-8") as f:
         json.dump(ev, f, indent=1, sort_keys=True, default=_canon_default)
